@@ -533,6 +533,52 @@ def exec_cases():
 
 
 # ----------------------------------------------------------------------------- main
+def rebound_names_and_case_twins(chk):
+    """The group is its documented expansion whatever the COND file calls its own things: a COND file may rebind the names
+    the library uses internally -- `ExperimentInstance` wrapped by functools.partial or by a local function, a helper
+    named `combine` brought in by include() -- before (or after) it calls run_experiment_group; and instance names that
+    differ only in case are different tasks.  For each variant the group form and the explicit form written from the
+    documentation must both be accepted by `cond run --check` and execute the same commands.  (Seed C19/k: the library
+    was compiled into every COND file's own namespace, so its internal names resolved against the file's bindings; seed
+    C19/l: the duplicate-instance test folded case.)"""
+    import implrun
+
+    log_cmd = "echo $COND_NAME >> %s; true"
+    variants = {
+        "partial": ('import functools\nExperimentInstance = functools.partial(ExperimentInstance, parallelizable=True)\n', 'ExperimentInstance(name="a"), ExperimentInstance(name="b")', ["a", "b"]),
+        "wrapper": ('_EI = ExperimentInstance\ndef ExperimentInstance(name, threads=1):\n    return _EI(name=name, options={"threads": threads})\n', 'ExperimentInstance("a", 2), ExperimentInstance("b")', ["a", "b"]),
+        "helper named combine": ('include("//helpers.cond")\nOPTS = combine({"x": 1}, {"y": 2})\n', 'ExperimentInstance(name="a", options=OPTS), ExperimentInstance(name="b")', ["a", "b"]),
+        "case twins": ('', 'ExperimentInstance(name="Sweep-A"), ExperimentInstance(name="sweep-b"), ExperimentInstance(name="sweep-a")', ["Sweep-A", "sweep-b", "sweep-a"]),
+        "case twins, chained": ('', 'ExperimentInstance(name="lru"), ExperimentInstance(name="LRU")', ["lru", "LRU"]),
+    }
+    for vname, (pre, insts, names) in variants.items():
+        root = implrun.make_project({"COND": ""})
+        log = os.path.join(root, "events.log")
+        chain = "chained" in vname
+        files = {"helpers.cond": "def combine(*dicts):\n    out = {}\n    for d in dicts:\n        out.update(d)\n    return out\n",
+                 "g/COND": pre + 'run_experiment_group(name="all", run="%s", experiments=[%s]%s)\n' % (log_cmd % log, insts, ", chain_experiments=True" if chain else "")}
+        for rel, text in files.items():
+            os.makedirs(os.path.dirname(os.path.join(root, rel)), exist_ok=True)
+            open(os.path.join(root, rel), "w").write(text)
+        chk.coverage["evaluations"] = chk.coverage.get("evaluations", 0) + 2
+        chk.count("origin", "rebound names / case twins")
+        problems = []
+        rc = implrun.run_cond(["run", "//g:all", "--check"], root, timeout=60)
+        if rc.code != 0:
+            problems.append("`cond run //g:all --check` rejects the group (exit %s): %s" % (rc.code, implrun.strip_ansi(rc.out + rc.err).strip()[-200:]))
+        else:
+            rr = implrun.run_cond(["run", "//g:all"], root, timeout=60)
+            ran = open(log).read().split() if os.path.exists(log) else []
+            if rr.code != 0 or sorted(ran) != sorted(names) or (chain and ran != names):
+                problems.append("`cond run //g:all` exited %s and executed %r; the documented expansion executes %r%s" % (rr.code, ran, names, " in this order" if chain else ""))
+            entries = sorted(os.listdir(os.path.join(root, "cond-out", "g", "all.task"))) if os.path.isdir(os.path.join(root, "cond-out", "g", "all.task")) else None
+            if not problems and entries != sorted(names):
+                problems.append("the group's combine directory holds %r, one entry per instance is %r" % (entries, sorted(names)))
+        for msg in problems[:1]:
+            chk.violation("impl-violation", "run_experiment_group in a COND file with %s: %s" % (vname, msg),
+                          {"input": {"part": "rebound-names", "variant": vname, "files": files}, "oracle_verdict": msg}, match_key={"part": "rebound-names"}, size=3)
+
+
 def run(tier, seed, replay=None):
     chk = Check("C19", tier, seed)
     chk.build_proofs(["Model/Group.vo", "Model/Schema.vo", "Lib/Cmp.vo"])
@@ -543,6 +589,8 @@ def run(tier, seed, replay=None):
     ]
     loader = Loader()
     multi_file(chk, loader)
+    if replay is None:
+        rebound_names_and_case_twins(chk)
 
     if replay is not None:
         case = unjson(replay["input"])
